@@ -1,103 +1,34 @@
 (* The argument-handling glue of the command-line wrappers, part 1: cli/argument_parsing.py.  The hand-written models
    Cli.str_to_bool / cast_dict / kv_append equal the translations of the WHOLE functions str_to_bool, cast_dict_to_type and
    KVAppendAction.__call__ of /repo, regenerated on every run (Generated/SrcCliArgs.v, configurations ARGS_* of
-   harness/src_functions.py), for every record of string primitives and all inputs. *)
+   harness/src_functions.py), for every record of string primitives and all inputs.
+
+   Each link is proved in its own file - Proofs/C18SourceArgs_StrBool.v, C18SourceArgs_Cast.v (with the cast / resolve blocks every
+   get_args() link uses), C18SourceArgs_KV.v, C18SourceArgs_Cmd.v (part 2: get_args() and main() of calculate_scores) - which is what
+   the argument links of the OTHER wrappers import, so that they depend on the translations of str_to_bool and cast_dict_to_type
+   only.  This file states the links together, for Props/C18.v. *)
 From Coq Require Import ZArith List Bool Lia.
-From Batchie Require Import Lib.Sexp Lib.PyRt Model.Cli Generated.SrcCli Generated.SrcCliArgs Proofs.PyRtLemmas Proofs.C06SourceCli.
+From Batchie Require Import Lib.Sexp Lib.PyRt Model.Cli Generated.SrcCli Generated.SrcCliArgs Proofs.PyRtLemmas
+  Proofs.C18SourceArgs_StrBool Proofs.C18SourceArgs_Cast Proofs.C18SourceArgs_KV Proofs.C18SourceArgs_Cmd.
 Import ListNotations.
 Open Scope Z_scope.
 
 Theorem src_str_to_bool_is_model : forall {F O : Type} (P : pyprims F O) (s : str),
   src_str_to_bool F O P s = str_to_bool P s.
-Proof. intros. reflexivity. Qed.
-
-Lemma call_callable_ext {F O : Type} (P : pyprims F O) (f g : str -> result bool) :
-  (forall s, f s = g s) -> forall c s, call_callable P f c s = call_callable P g c s.
-Proof. intros H c s. destruct c as [|t]; cbn [call_callable]; [now rewrite H|reflexivity]. Qed.
-
-(* the comprehension of cast_dict_to_type, for an arbitrary body equal to the canonical one *)
-Lemma cast_loop {F O : Type} (P : pyprims F O) (types : list (str * ann))
-  (f : list (str * pval F O) -> str * str -> result (list (str * pval F O))) :
-  (forall acc kv, f acc kv = dor t <- kdict_get str_eqb 25 types (fst kv);
-                             dor x <- convert P t (snd kv); Ok (kdict_set str_eqb acc (fst kv) x)) ->
-  forall items acc, res_fold f items acc = cast_items P types items acc.
-Proof.
-  intros Hf items. induction items as [|[k v] r IH]; intros acc; cbn [res_fold cast_items]; [reflexivity|].
-  rewrite Hf. cbn [fst snd].
-  destruct (kdict_get str_eqb 25 types k) as [t|e]; cbn [res_bind]; [|reflexivity].
-  destruct (convert P t v) as [x|e]; cbn [res_bind]; [|reflexivity].
-  apply IH.
-Qed.
+Proof. exact (@C18SourceArgs_StrBool.src_str_to_bool_is_model). Qed.
 
 Theorem src_cast_dict_is_model : forall (F O : Type) (P : pyprims F O) (k_v_string : list (str * str))
   (k_v_types : list (str * ann)),
   src_cast_dict_to_type F O P k_v_string k_v_types = cast_dict P k_v_string k_v_types.
-Proof.
-  intros. unfold src_cast_dict_to_type, cast_dict. cbv zeta.
-  rewrite (cast_loop P k_v_types).
-  - apply res_bind_ret.
-  - intros acc [k v]. cbn [fst snd].
-    destruct (kdict_get str_eqb 25 k_v_types k) as [t|e]; cbn [res_bind]; [|reflexivity].
-    unfold convert.
-    rewrite (call_callable_ext P (src_str_to_bool F O P) (str_to_bool P) (src_str_to_bool_is_model P)).
-    reflexivity.
-Qed.
+Proof. exact C18SourceArgs_Cast.src_cast_dict_is_model. Qed.
 
 Theorem src_kv_append_is_model : forall (dest : option (list (str * str))) (values : list str),
   src_kv_append dest values = kv_append dest values.
-Proof.
-  intros dest values. unfold src_kv_append, kv_append.
-  destruct values as [|w [|w2 r]].
-  - reflexivity.
-  - cbn [length Z.of_nat Z.eqb Pos.of_succ_nat Pos.eqb]. change (list_get [w] 0) with (Ok w). cbn [res_bind].
-    change ([61] : str) with s_eq.
-    destruct (str_split w s_eq 2) as [parts|t]; cbn [res_bind res_catch_tags].
-    + destruct parts as [|k [|v [|x parts]]]; reflexivity.
-    + destruct (zmem t [23; 24]); reflexivity.
-  - replace (Z.of_nat (length (w :: w2 :: r)) =? 1) with false; [reflexivity|].
-    symmetry. apply Z.eqb_neq. cbn [length]. lia.
-Qed.
-
-(* ---------- part 2: the statements of get_args() after parser.parse_args(), and main() as a whole command ---------- *)
-(* the `if not args.<x>_param: ... = {} else: ... = cast_dict_to_type(...)` block, for any continuation *)
-Lemma cast_block {F O X : Type} (P : pyprims F O) (param : option (list (str * str))) (req : list (str * ann))
-  (k : list (str * pval F O) -> result X) :
-  (if negb (opt_list_truthy param) then k []
-   else dor u <- unwrap param; dor r <- src_cast_dict_to_type F O P u req; k r)
-  = dor ps <- cast_params P param req; k ps.
-Proof.
-  destruct param as [[|x l]|]; cbn [opt_list_truthy negb unwrap res_bind cast_params]; try reflexivity.
-  now rewrite src_cast_dict_is_model.
-Qed.
-
-(* class lookup, required-argument annotations, cast: the three steps every get_args() makes per class-valued option *)
-Lemma resolve_block {Cls F O X : Type} (I : introspect Cls) (P : pyprims F O) (base : base_class) (name : str)
-  (param : option (list (str * str))) (k : option Cls -> list (str * pval F O) -> result X) :
-  (dor c <- i_get_class I s_batchie name base;
-   dor req <- i_required I c;
-   if negb (opt_list_truthy param) then k c []
-   else dor u <- unwrap param; dor r <- src_cast_dict_to_type F O P u req; k c r)
-  = dor cp <- resolve I P base name param; k (fst cp) (snd cp).
-Proof.
-  unfold resolve.
-  destruct (i_get_class I s_batchie name base) as [c|e]; cbn [res_bind]; [|reflexivity].
-  destruct (i_required I c) as [req|e]; cbn [res_bind]; [|reflexivity].
-  rewrite (cast_block P param req (k c)).
-  destruct (cast_params P param req); reflexivity.
-Qed.
+Proof. exact C18SourceArgs_KV.src_kv_append_is_model. Qed.
 
 Theorem src_cs_get_args_is_model : forall (Cls F O : Type) (I : introspect Cls) (P : pyprims F O) (raw : cs_ns Cls F O),
   src_cs_get_args Cls F O I P raw = cs_get_args I P raw.
-Proof.
-  intros. unfold src_cs_get_args, cs_get_args. cbv zeta.
-  rewrite <- (resolve_block I P BScorer (cs_scorer raw) (cs_scorer_param raw)
-                (fun c ps => Ok (cs_set_scorer_params (cs_set_scorer_cls raw c) ps))).
-  unfold s_batchie.
-  destruct (i_get_class I [98; 97; 116; 99; 104; 105; 101] (cs_scorer raw) BScorer) as [c|e]; cbn [res_bind]; [|reflexivity].
-  cbn [cs_scorer_cls cs_scorer_param cs_set_scorer_cls].
-  destruct (i_required I c) as [req|e]; cbn [res_bind]; [|reflexivity].
-  apply res_bind_ret.
-Qed.
+Proof. exact C18SourceArgs_Cmd.src_cs_get_args_is_model. Qed.
 
 (* main() as a whole command: get_args() is the translated get_args on the raw namespace, the scorer is `construct` on the
    class and the parameters the namespace holds *)
@@ -107,17 +38,7 @@ Theorem src_cli_calculate_scores_cmd_is_model :
          (raw : cs_ns Cls F O),
   src_cli_calculate_scores_cmd Cls F O I P Scr Pl Th Dm Sc H construct L mix raw
   = cli_calculate_scores_cmd I P construct L mix raw.
-Proof.
-  intros. unfold src_cli_calculate_scores_cmd, cli_calculate_scores_cmd. cbv zeta.
-  rewrite src_cs_get_args_is_model.
-  destruct (cs_get_args I P raw) as [a|e]; cbn [res_bind]; [|reflexivity].
-  rewrite <- C06SourceCli.src_cli_calculate_scores_is_model.
-  unfold SrcCli.src_cli_calculate_scores, instantiate. cbv zeta.
-  cbn [cs_with_mk cs_load_screen cs_plates cs_is_observed cs_plate_id cs_mk_scorer cs_load_thetas cs_concat_thetas cs_load_dist
-       cs_concat_dist cs_score_chunk].
-  destruct (cs_load_screen L (cs_data (cs_plain a))); cbn [res_bind]; [|reflexivity].
-  destruct (unwrap (cs_scorer_cls a)); cbn [res_bind]; reflexivity.
-Qed.
+Proof. exact C18SourceArgs_Cmd.src_cli_calculate_scores_cmd_is_model. Qed.
 
 (* the same, with the model spelled out: the scorer component of the main() model IS the resolved class instantiated with
    the cast parameters *)
@@ -128,8 +49,4 @@ Theorem src_cli_calculate_scores_cmd_spelled :
   src_cli_calculate_scores_cmd Cls F O I P Scr Pl Th Dm Sc H construct L mix raw
   = (dor cp <- resolve I P BScorer (cs_scorer raw) (cs_scorer_param raw);
      cli_calculate_scores (cs_with_mk L (instantiate construct (fst cp) (snd cp))) mix (cs_plain raw)).
-Proof.
-  intros. rewrite src_cli_calculate_scores_cmd_is_model.
-  unfold cli_calculate_scores_cmd, cs_get_args.
-  destruct (resolve I P BScorer (cs_scorer raw) (cs_scorer_param raw)); reflexivity.
-Qed.
+Proof. exact C18SourceArgs_Cmd.src_cli_calculate_scores_cmd_spelled. Qed.
